@@ -42,15 +42,15 @@ type Tag struct {
 
 // Frame is one Ethernet frame pushed into the server. Et: "disc" (0x8863), "sess" (0x8864), "other".
 type Frame struct {
-	Src     int    `json:"src"`           // peer index: MAC 02:00:00:00:00:<src+1>
-	Dst     int    `json:"dst"`           // 0 broadcast, 1 server MAC, 2 another station
+	Src     int    `json:"src"` // peer index: MAC 02:00:00:00:00:<src+1>
+	Dst     int    `json:"dst"` // 0 broadcast, 1 server MAC, 2 another station
 	Et      string `json:"et"`
-	Code    int    `json:"code"`          // PPPoE header code
-	Sid     int    `json:"sid"`           // PPPoE header session id
+	Code    int    `json:"code"` // PPPoE header code
+	Sid     int    `json:"sid"`  // PPPoE header session id
 	Tags    []Tag  `json:"tags,omitempty"`
 	Proto   int    `json:"proto,omitempty"`
 	Payload []byte `json:"payload,omitempty"`
-	L       string `json:"l,omitempty"`   // label for the input-distribution report
+	L       string `json:"l,omitempty"` // label for the input-distribution report
 }
 
 type Case struct {
@@ -196,8 +196,6 @@ func (s *radSrv) take() int {
 	return v
 }
 
-var rad *radSrv
-
 // papCreds mirrors the PAP request layout only to learn which answer the scripted server will give.
 func papCreds(p []byte) (string, string) {
 	if len(p) < 6 {
@@ -215,29 +213,6 @@ func papCreds(p []byte) (string, string) {
 }
 
 // ---------------------------------------------------------------- running one case on the real server
-
-// interner names repeated sub-terms (ops, sent frames, session records, whole steps) so that a shard
-// states each of them once (vh.Def); one interner per stream.
-type interner struct {
-	names map[string]string
-	defs  map[string]vh.Def
-}
-
-var in = &interner{names: map[string]string{}, defs: map[string]vh.Def{}}
-
-func resetInterner() { in = &interner{names: map[string]string{}, defs: map[string]vh.Def{}} }
-
-// name returns the identifier for term, appending its definition (after deps) to *use when new to it.
-func (t *interner) name(prefix, typ, term string, deps []vh.Def, use *[]vh.Def) string {
-	n, ok := t.names[prefix+term]
-	if !ok {
-		n = fmt.Sprintf("%s%d", prefix, len(t.names))
-		t.names[prefix+term] = n
-		t.defs[n] = vh.Def{Name: n, Type: typ, Body: term}
-	}
-	*use = append(append(*use, deps...), t.defs[n])
-	return n
-}
 
 func tagsCoq(tags []Tag) string {
 	var l []string
@@ -322,17 +297,33 @@ func decodeSent(f []byte) string {
 	return bad("ethertype")
 }
 
+// rawStep is what one frame produced on the real server, as Coq sub-terms.
+type rawStep struct {
+	op     string
+	frames []string
+	rad    int
+	sess   []string
+	tbl    [3]string // macidx, avail, alloc
+	fp     string    // state fingerprint without counters (pruning key of the exhaustive stream)
+}
+type rawCase struct {
+	c     Case
+	cfg   string
+	init  [3]string
+	steps []rawStep
+	tags  []string
+}
+
 type runner struct {
 	srv   *pppoe.Server
 	sock  *pppoe.VerifC04Socket
+	rad   *radSrv
 	stop  context.CancelFunc
 	inst  map[string]int
 	nsent int
-	prev  [4]string // previous sessions / macidx / avail / alloc terms
-	defs  []vh.Def  // definitions the current step's terms refer to
 }
 
-func newRunner(c Cfg) *runner {
+func newRunner(c Cfg, rad *radSrv) *runner {
 	cfg := pppoe.ServerConfig{Interface: "verif0", ACName: "BNG-AC", ServiceName: c.Service, ServerIP: "10.0.0.1",
 		ClientPool: c.Pool, PoolGateway: c.Gateway, PrimaryDNS: c.DNS1, SecondaryDNS: c.DNS2, MRU: c.MRU}
 	if c.Chap {
@@ -344,9 +335,10 @@ func newRunner(c Cfg) *runner {
 	}
 	if c.Radius {
 		port := rad.conn.LocalAddr().(*net.UDPAddr).Port
+		// one attempt; the timeout only elapses for the scripted "drop" outcome
 		rc, err := bngradius.NewClient(bngradius.ClientConfig{
 			Servers: []bngradius.ServerConfig{{Host: "127.0.0.1", Port: port, Secret: secret}},
-			NASID:   "verif", Timeout: 25 * time.Millisecond, Retries: 1}, zap.NewNop())
+			NASID:   "verif", Timeout: 1500 * time.Millisecond, Retries: 1}, zap.NewNop())
 		if err != nil {
 			panic(err)
 		}
@@ -355,22 +347,14 @@ func newRunner(c Cfg) *runner {
 	ctx, cancel := context.WithCancel(context.Background())
 	go srv.VerifC04Run(ctx)
 	sock.WaitReady()
-	return &runner{srv: srv, sock: sock, stop: cancel, inst: map[string]int{}, prev: [4]string{"[]", "[]", "?", "[]"}}
+	return &runner{srv: srv, sock: sock, rad: rad, stop: cancel, inst: map[string]int{}}
 }
 
 func (r *runner) close() { r.stop(); r.sock.Shutdown() }
 
-type obs struct {
-	coq   string // D frames radius sessions macidx avail alloc (delta against the previous observation)
-	fp    string // state fingerprint without counters (for pruning)
-	snap  pppoe.VerifC04Snap
-	nsent int
-	rad   int
-}
-
-func (r *runner) snapshot(sentCoq []string, radv int) obs {
+func (r *runner) snapshot(st *rawStep) pppoe.VerifC04Snap {
 	sn := r.srv.VerifC04Snapshot()
-	var ss, fps []string
+	var fps []string
 	for _, s := range sn.Sessions {
 		if _, ok := r.inst[s.SessionID]; !ok {
 			r.inst[s.SessionID] = len(r.inst)
@@ -379,8 +363,8 @@ func (r *runner) snapshot(sentCoq []string, radv int) obs {
 		if s.ClientIP != nil {
 			ip = fmt.Sprintf("(Some %d)", ipN(s.ClientIP))
 		}
-		ss = append(ss, in.name("s", "sess", fmt.Sprintf("S %d %d %d %s %s %d %d %d %d", s.ID, macN(s.ClientMAC), s.State,
-			vh.Bool(s.Authenticated), ip, s.LCPIdentifier, s.PacketsIn, s.PacketsOut, r.inst[s.SessionID]), nil, &r.defs))
+		st.sess = append(st.sess, fmt.Sprintf("S %d %d %d %s %s %d %d %d %d", s.ID, macN(s.ClientMAC), s.State,
+			vh.Bool(s.Authenticated), ip, s.LCPIdentifier, s.PacketsIn, s.PacketsOut, r.inst[s.SessionID]))
 		fps = append(fps, fmt.Sprintf("%d/%d/%d/%v/%s/%d", s.ID, macN(s.ClientMAC), s.State, s.Authenticated, ip, r.inst[s.SessionID]))
 	}
 	type kv struct{ k, v uint64 }
@@ -409,24 +393,15 @@ func (r *runner) snapshot(sentCoq []string, radv int) obs {
 	for _, e := range al {
 		als = append(als, vh.Pair(vh.N(e.k), vh.N(e.v)))
 	}
-	cur := [4]string{vh.List(ss), vh.List(mis), vh.List(avs), vh.List(als)}
-	var d [4]string
-	for i := range cur {
-		if cur[i] == r.prev[i] {
-			d[i] = "None"
-		} else {
-			d[i] = "(Some " + cur[i] + ")"
-		}
-	}
-	r.prev = cur
-	coq := fmt.Sprintf("D %s %d %s %s %s %s", vh.List(sentCoq), radv, d[0], d[1], d[2], d[3])
-	fp := strings.Join(fps, ",") + "|" + strings.Join(mis, ",") + "|" + strings.Join(avs, ",") + "|" + strings.Join(als, ",")
-	return obs{coq: coq, fp: fp, snap: sn}
+	st.tbl = [3]string{vh.List(mis), vh.List(avs), vh.List(als)}
+	st.fp = strings.Join(fps, ",") + "|" + strings.Join(st.tbl[:], "|")
+	return sn
 }
 
 // push delivers one frame through receiveLoop and returns the observation after it.
-func (r *runner) push(f Frame) obs {
-	rad.take()
+func (r *runner) push(f Frame) (rawStep, pppoe.VerifC04Snap) {
+	st := rawStep{op: frameCoq(f)}
+	r.rad.take()
 	r.sock.Push(f.bytes())
 	// handlePADR starts startLCPNegotiation in a goroutine: when a PADS was sent, wait for the
 	// LCP Configure-Request that goroutine sends, so that every step ends in a quiescent server.
@@ -434,7 +409,7 @@ func (r *runner) push(f Frame) obs {
 	for _, s := range sent {
 		if len(s) >= 16 && binary.BigEndian.Uint16(s[12:14]) == 0x8863 && s[15] == 0x65 {
 			// the PADR handler itself sends exactly the PADS; the goroutine exactly one frame
-			if !r.sock.WaitSent(r.nsent+2, 5*time.Second) {
+			if !r.sock.WaitSent(r.nsent+2, 10*time.Second) {
 				fmt.Fprintln(os.Stderr, "c04: LCP Configure-Request after PADS did not appear")
 				os.Exit(3)
 			}
@@ -443,14 +418,12 @@ func (r *runner) push(f Frame) obs {
 		}
 	}
 	r.nsent += len(sent)
-	var sc []string
 	for _, s := range sent {
-		sc = append(sc, in.name("e", "eframe", decodeSent(s), nil, &r.defs))
+		st.frames = append(st.frames, decodeSent(s))
 	}
-	rv := rad.take()
-	o := r.snapshot(sc, rv)
-	o.nsent, o.rad = len(sent), rv
-	return o
+	st.rad = r.rad.take()
+	sn := r.snapshot(&st)
+	return st, sn
 }
 
 func frameCoq(f Frame) string {
@@ -478,12 +451,13 @@ func optN(s string) string {
 	return "None"
 }
 
-func run(c Case) (vh.Case, []string) {
-	r := newRunner(c.Cfg)
+func run(c Case, rad *radSrv) rawCase {
+	r := newRunner(c.Cfg, rad)
 	defer r.close()
-	o0 := r.snapshot(nil, 0)
+	var s0 rawStep
+	sn0 := r.snapshot(&s0)
 	var pool []string
-	for _, ip := range o0.snap.Available {
+	for _, ip := range sn0.Available {
 		pool = append(pool, vh.N(ipN(ip)))
 	}
 	service := c.Cfg.Service
@@ -494,39 +468,117 @@ func run(c Case) (vh.Case, []string) {
 	if mru == 0 {
 		mru = 1492
 	}
-	cfg := fmt.Sprintf("Build_config %d %s %s %s %d %s %s %s %d %s %s", macN(serverMAC), vh.Str(service), vh.Str("BNG-AC"),
-		vh.Bool(c.Cfg.Chap), mru, vh.Bool(c.Cfg.Radius), vh.Bool(o0.snap.HasPool), vh.List(pool), ipN(net.ParseIP("10.0.0.1")),
+	rc := rawCase{c: c, init: s0.tbl}
+	rc.cfg = fmt.Sprintf("Build_config %d %s %s %s %d %s %s %s %d %s %s", macN(serverMAC), vh.Str(service), vh.Str("BNG-AC"),
+		vh.Bool(c.Cfg.Chap), mru, vh.Bool(c.Cfg.Radius), vh.Bool(sn0.HasPool), vh.List(pool), ipN(net.ParseIP("10.0.0.1")),
 		optN(c.Cfg.DNS1), optN(c.Cfg.DNS2))
-	var tr, fps []string
 	tags := map[string]bool{}
-	var defs []vh.Def
-	cfgName := in.name("k", "config", cfg, nil, &defs)
 	for _, f := range c.Frames {
-		r.defs = nil
-		o := r.push(f)
-		on := in.name("o", "op", frameCoq(f), nil, &r.defs)
-		tr = append(tr, in.name("p", "(op * dout)", vh.Pair(on, o.coq), r.defs, &defs))
-		fps = append(fps, o.fp)
+		st, sn := r.push(f)
+		rc.steps = append(rc.steps, st)
 		if f.L != "" {
 			tags["f:"+f.L] = true
 		}
-		if o.rad > 0 {
-			tags[fmt.Sprintf("radius:%d", o.rad)] = true
+		if st.rad > 0 {
+			tags[fmt.Sprintf("radius-answer:%d", st.rad-1)] = true
 		}
-		for _, s := range o.snap.Sessions {
+		for _, s := range sn.Sessions {
 			tags[fmt.Sprintf("state:%d", s.State)] = true
 			if s.Authenticated {
 				tags["authenticated"] = true
 			}
+			if s.ClientIP != nil {
+				tags["client-ip"] = true
+			}
 		}
 	}
-	var tl []string
 	for t := range tags {
-		tl = append(tl, t)
+		rc.tags = append(rc.tags, t)
 	}
-	sort.Strings(tl)
-	tl = append(tl, fmt.Sprintf("len:%d", len(c.Frames)), fmt.Sprintf("radius:%v", c.Cfg.Radius))
-	return vh.Case{Coq: "(" + cfgName + ", " + vh.List(tr) + ")", Desc: c, Tags: tl, Defs: defs}, fps
+	sort.Strings(rc.tags)
+	rc.tags = append(rc.tags, fmt.Sprintf("len:%d", len(c.Frames)), fmt.Sprintf("radius:%v", c.Cfg.Radius))
+	return rc
+}
+
+// runMany executes the cases on a pool of workers (each with its own scripted RADIUS server);
+// results keep the input order.
+func runMany(cs []Case) []rawCase {
+	out := make([]rawCase, len(cs))
+	var wg sync.WaitGroup
+	next := make(chan int)
+	for w := 0; w < workers; w++ {
+		wg.Add(1)
+		go func(rad *radSrv) {
+			defer wg.Done()
+			for i := range next {
+				out[i] = run(cs[i], rad)
+			}
+		}(rads[w])
+	}
+	for i := range cs {
+		next <- i
+	}
+	close(next)
+	wg.Wait()
+	return out
+}
+
+const workers = 6
+
+var rads []*radSrv
+
+// interner names repeated sub-terms (ops, sent frames, session records, whole steps) so that a shard
+// states each of them once (vh.Def); one interner per stream, used sequentially.
+type interner struct {
+	names map[string]string
+	defs  map[string]vh.Def
+}
+
+func newInterner() *interner { return &interner{names: map[string]string{}, defs: map[string]vh.Def{}} }
+
+// name returns the identifier for term, appending its definition (after deps) to *use.
+func (t *interner) name(prefix, typ, term string, deps []vh.Def, use *[]vh.Def) string {
+	n, ok := t.names[prefix+term]
+	if !ok {
+		n = fmt.Sprintf("%s%d", prefix, len(t.names))
+		t.names[prefix+term] = n
+		t.defs[n] = vh.Def{Name: n, Type: typ, Body: term}
+	}
+	*use = append(append(*use, deps...), t.defs[n])
+	return n
+}
+
+// build turns a raw case into the Coq case term: every step's observation as a delta against the
+// previous one (Model/PPPoESrvCheck.v expand), repeated sub-terms named.
+func (t *interner) build(rc rawCase) vh.Case {
+	var defs []vh.Def
+	cfgName := t.name("k", "config", rc.cfg, nil, &defs)
+	prev := [4]string{"[]", rc.init[0], rc.init[1], rc.init[2]}
+	var tr []string
+	for _, st := range rc.steps {
+		var sd []vh.Def
+		on := t.name("o", "op", st.op, nil, &sd)
+		var fr, ss []string
+		for _, f := range st.frames {
+			fr = append(fr, t.name("e", "eframe", f, nil, &sd))
+		}
+		for _, x := range st.sess {
+			ss = append(ss, t.name("s", "sess", x, nil, &sd))
+		}
+		cur := [4]string{vh.List(ss), st.tbl[0], st.tbl[1], st.tbl[2]}
+		var d [4]string
+		for i := range cur {
+			if cur[i] == prev[i] {
+				d[i] = "None"
+			} else {
+				d[i] = "(Some " + cur[i] + ")"
+			}
+		}
+		prev = cur
+		term := fmt.Sprintf("(%s, D %s %d %s %s %s %s)", on, vh.List(fr), st.rad, d[0], d[1], d[2], d[3])
+		tr = append(tr, t.name("p", "(op * dout)", term, sd, &defs))
+	}
+	return vh.Case{Coq: "(" + cfgName + ", " + vh.List(tr) + ")", Desc: rc.c, Tags: rc.tags, Defs: defs}
 }
 
 // ---------------------------------------------------------------- alphabet
@@ -582,32 +634,33 @@ func alphabet(peers int, sids []int) []Frame {
 }
 
 // exhaustive enumeration to the given depth with pruning on the real server's state fingerprint:
-// a prefix is extended only if it reached a (table, MAC index, pool) projection not seen at a shorter or
-// equal length; every executed sequence is a case.
-func exhaustive(cfg Cfg, depth int, alpha []Frame, emit func(Case)) (int, int) {
+// a prefix is extended only if it reached a (table, MAC index, pool) projection not seen before;
+// every executed sequence is a case.
+func exhaustive(cfg Cfg, depth int, alpha []Frame) ([]rawCase, int) {
 	seen := map[string]bool{}
 	frontier := [][]Frame{{}}
-	states := 0
+	var all []rawCase
 	for d := 1; d <= depth; d++ {
-		var next [][]Frame
+		var batch []Case
 		for _, pre := range frontier {
 			for _, sym := range alpha {
-				seq := append(append([]Frame{}, pre...), sym)
-				c := Case{Cfg: cfg, Frames: seq}
-				fp := emitAndFP(c, emit)
-				if !seen[fp] {
-					seen[fp] = true
-					states++
-					next = append(next, seq)
-				}
+				batch = append(batch, Case{Cfg: cfg, Frames: append(append([]Frame{}, pre...), sym)})
 			}
 		}
+		res := runMany(batch)
+		var next [][]Frame
+		for _, rc := range res {
+			fp := rc.steps[len(rc.steps)-1].fp
+			if !seen[fp] {
+				seen[fp] = true
+				next = append(next, rc.c.Frames)
+			}
+		}
+		all = append(all, res...)
 		frontier = next
 	}
-	return states, len(frontier)
+	return all, len(seen)
 }
-
-var emitAndFP func(c Case, emit func(Case)) string
 
 // ---------------------------------------------------------------- random histories
 
@@ -649,9 +702,7 @@ func randFrame(r *vh.Rng, peers int, sids []int) Frame {
 		case 1:
 			f = sess(src, sid, 0xC023, "pap-radius-error", papReq(r.Intn(256), "chal-user", "good"))
 		case 2:
-			if r.Chance(1, 4) {
-				f = sess(src, sid, 0xC023, "pap-radius-timeout", papReq(r.Intn(256), "drop-user", "good"))
-			}
+			f = sess(src, sid, 0xC023, "pap-radius-reject", papReq(r.Intn(256), "acc-user", "wrong"))
 		case 3:
 			p := papReq(9, "acc-user", "good")
 			f = sess(src, sid, 0xC023, "pap-truncated", p[:4+r.Intn(len(p)-4)])
@@ -731,6 +782,10 @@ func randCase(r *vh.Rng, maxLen int) Case {
 	for len(c.Frames) < n {
 		c.Frames = append(c.Frames, randFrame(r, peers, sids))
 	}
+	if c.Cfg.Radius && r.Chance(1, 30) { // a RADIUS timeout costs real time: one per ~30 cases
+		i := r.Intn(len(c.Frames))
+		c.Frames[i] = sess(r.Intn(peers), sids[r.Intn(2)], 0xC023, "pap-radius-timeout", papReq(r.Intn(256), "drop-user", "good"))
+	}
 	return c
 }
 
@@ -753,39 +808,40 @@ func footer(prefix bool) string {
 func main() {
 	prefix := os.Getenv("VERIF_C04_PREFIX_MODEL") == "1" // evaluate the Model of the tree before the fixes
 	cfg := vh.ParseFlags()
-	rad = startRadius()
+	for i := 0; i < workers; i++ {
+		rads = append(rads, startRadius())
+	}
 	foot := footer(prefix)
 	if cfg.Replay != "" {
 		var c Case
 		if err := vh.LoadReplay(cfg.Replay, &c); err != nil {
 			panic(err)
 		}
-		vc, _ := run(c)
-		vh.Emit(cfg, "cases", header, foot, []vh.Case{vc}, nil)
+		vh.Emit(cfg, "cases", header, foot, []vh.Case{newInterner().build(run(c, rads[0]))}, nil)
 		return
 	}
-	var corpus []vh.Case
+	var cc []Case
+	var names []string
 	for _, f := range vh.CorpusFiles(cfg) {
 		var c Case
 		if err := vh.LoadReplay(f, &c); err != nil {
 			panic(err)
 		}
-		vc, _ := run(c)
-		vc.Tags = append(vc.Tags, "corpus:"+strings.TrimSuffix(f[strings.LastIndex(f, "/")+1:], ".json"))
-		corpus = append(corpus, vc)
+		cc = append(cc, c)
+		names = append(names, "corpus:"+strings.TrimSuffix(f[strings.LastIndex(f, "/")+1:], ".json"))
 	}
-	if len(corpus) > 0 {
+	if len(cc) > 0 {
+		it := newInterner()
+		var corpus []vh.Case
+		for i, rc := range runMany(cc) {
+			vc := it.build(rc)
+			vc.Tags = append(vc.Tags, names[i])
+			corpus = append(corpus, vc)
+		}
 		vh.Emit(cfg, "corpus", header, foot, corpus, nil)
 	}
 
 	// exhaustive stream
-	resetInterner()
-	var ex []vh.Case
-	emitAndFP = func(c Case, emit func(Case)) string {
-		vc, fps := run(c)
-		ex = append(ex, vc)
-		return fps[len(fps)-1]
-	}
 	type exRun struct {
 		name  string
 		cfg   Cfg
@@ -803,24 +859,33 @@ func main() {
 	}
 	exMeta := map[string]interface{}{"exhaustive": true,
 		"pruning": "a prefix is extended only when it reached a new (session table without counters, MAC index, pool) projection of the real server"}
+	it := newInterner()
+	var ex []vh.Case
 	for _, er := range runs {
-		before := len(ex)
-		states, _ := exhaustive(er.cfg, er.depth, er.alpha, nil)
-		exMeta["run:"+er.name] = map[string]int{"depth": er.depth, "alphabet": len(er.alpha), "sequences": len(ex) - before, "distinct_states": states}
+		res, states := exhaustive(er.cfg, er.depth, er.alpha)
+		for _, rc := range res {
+			ex = append(ex, it.build(rc))
+		}
+		exMeta["run:"+er.name] = map[string]int{"depth": er.depth, "alphabet": len(er.alpha), "sequences": len(res), "distinct_states": states}
 	}
-	vh.Emit(cfg, "exhaustive", header, foot, ex, exMeta)
+	ecfg := cfg
+	ecfg.Shard = 1000 // short cases sharing most sub-terms: bigger shards amortise coqc start-up
+	vh.Emit(ecfg, "exhaustive", header, foot, ex, exMeta)
 
 	// random stream
-	resetInterner()
 	r := vh.NewRng(cfg.Seed)
 	n, maxLen := 300, 40
 	if cfg.Thorough() {
 		n = 4000
 	}
-	var cases []vh.Case
+	var rcs []Case
 	for i := 0; i < n; i++ {
-		vc, _ := run(randCase(r.Fork(), maxLen))
-		cases = append(cases, vc)
+		rcs = append(rcs, randCase(r.Fork(), maxLen))
+	}
+	it = newInterner()
+	var cases []vh.Case
+	for _, rc := range runMany(rcs) {
+		cases = append(cases, it.build(rc))
 	}
 	vh.Emit(cfg, "random", header, foot, cases, nil)
 }
